@@ -88,6 +88,7 @@ type Interp struct {
 	fixed       map[string]*Term  // inputs fixed by enumeration (Choose): name -> value
 	wrapped     map[*Object]Value // error wrapping side table
 	gzipUnder   map[*Object]Value
+	jsonSeq     int
 	threads     []*Thread
 	cur         *Thread
 	sched       *Sched
